@@ -750,6 +750,7 @@ def normalize(modules) -> Report:
     n2.expand_ifexp(modules, known, rep)
     n2.while_to_for(modules, known, rep)
     n2.unroll_constant_loops(modules, known, rep)
+    n2.expand_table_dispatch(modules, known, rep)
     n2.propagate_fresh_locals(modules, known, rep)
     seen = set()
     rep.kept = [k for k in rep.kept if not (k in seen or seen.add(k))]
